@@ -37,7 +37,9 @@ fn write(p: &str, data: &[u8], exec: bool) {
 /// an "agent executable": answers --version, carries arbitrary trailing bytes
 fn agent_script(version: &str, r: &mut Rng, version_fails: bool) -> Vec<u8> {
     let mut s = format!("#!/bin/sh\nif [ \"$1\" = \"--version\" ]; then {}; fi\nexit 0\n# ", if version_fails { "exit 3".to_string() } else { format!("echo {}; exit 0", version) }).into_bytes();
-    let n = r.below(300) as usize;
+    // half of the files come in one of two fixed sizes, so that different versions of a file often have the same
+    // length (a copy that trusts sizes or timestamps instead of content is then wrong)
+    let n = if r.chance(1, 2) { *r.pick(&[0usize, 50]) } else { r.below(300) as usize };
     for _ in 0..n {
         s.push(b'a' + r.below(26) as u8);
     }
@@ -46,6 +48,13 @@ fn agent_script(version: &str, r: &mut Rng, version_fails: bool) -> Vec<u8> {
 }
 fn blob(r: &mut Rng, tag: &str) -> Vec<u8> {
     let mut v = format!("{}:", tag).into_bytes();
+    if r.chance(1, 2) {
+        let total = *r.pick(&[32usize, 512]);
+        let mut b = vec![0u8; total - v.len()];
+        r.fill(&mut b);
+        v.extend(b);
+        return v;
+    }
     let n = r.below(2000) as usize;
     let mut b = vec![0u8; n];
     r.fill(&mut b);
